@@ -266,5 +266,5 @@ def run(rep, tier, seed, replay):
                    samples=samples, input_distribution=stats, mismatches=mism,
                    exhaustive=(tier == "thorough"))
     rep.assumptions += ["virtual time (cached_time) only; receive_tick invoked directly, not through the scheduler",
-                        "theorems assume per-tick quota <= 2^26, <= 4096 nodes per list, <= 8 slaves (no uint32 wrap)",
+                        "theorems assume per-tick quota <= 2^26, <= 1024 nodes per list, <= 8 slaves (no uint32 wrap); no_internal_error additionally carves out Rate::insert's own argument range (rate_quietb)",
                         "two-level hierarchy (root + slaves)"]
